@@ -106,6 +106,10 @@ def op_code(op, tid):
         return "(eval '(define h%d %d))" % (tid, op[1])
     if k == "readh":
         return "(set! acc (cons (eval 'h%d) acc))" % op[1]
+    if k == "send":
+        return "(channel/send ch-s 1)"
+    if k == "recv":
+        return "(channel/recv ch-r)"
     raise ValueError(op)
 
 
@@ -115,7 +119,7 @@ def thread_body(ops, tid):
     return "(lambda () (let ((acc '()) (keep #f)) %s (reverse acc)))" % body
 
 
-PRE = "(define g 0) (define lst (list 1 2))"
+PRE = "(define g 0) (define lst (list 1 2)) (define ch (channels/new)) (define ch-s (channels-sender ch)) (define ch-r (channels-receiver ch))"
 
 
 def driver_program(threads):
@@ -151,4 +155,51 @@ def reference_outcomes(threads):
     for reads, g in results:
         enc = "(lst" + "".join(" (lst" + "".join(" (i %d)" % v for v in r) + ")" for r in reads) + " (i %d))" % g
         out.add(enc)
+    return out
+
+
+def driver_program_phases(earlier, threads):
+    """`earlier` = threads that are spawned and joined (one after the other) before the experiment's threads exist; then as driver_program"""
+    pre = " ".join("(e%d (thread-join! (spawn-native-thread %s)))" % (i, thread_body(ops, 90 + i)) for i, ops in enumerate(earlier))
+    n = len(threads) - 1
+    spawns = " ".join("(t%d (spawn-native-thread %s))" % (i, thread_body(threads[i], i)) for i in range(1, n + 1))
+    joins = " ".join("(thread-join! t%d)" % i for i in range(1, n + 1))
+    return "(let* (%s %s (mine (%s))) (list mine %s g))" % (pre, spawns, thread_body(threads[0], 0), joins)
+
+
+def reference_outcomes_phases(earlier, threads):
+    """sequentially consistent results; the earlier threads run to completion first; recv waits for a send"""
+    g0 = 0
+    for ops in earlier:
+        for o in ops:
+            if o[0] == "set":
+                g0 = o[1]
+    seqs = [[o for o in t if o[0] in ("set", "read", "send", "recv")] for t in threads]
+    results = set()
+
+    def go(pos, g, sent, reads):
+        if all(pos[i] == len(seqs[i]) for i in range(len(seqs))):
+            results.add((tuple(tuple(r) for r in reads), g))
+            return
+        for i in range(len(seqs)):
+            if pos[i] < len(seqs[i]):
+                o = seqs[i][pos[i]]
+                if o[0] == "recv" and sent == 0:
+                    continue
+                p2 = list(pos)
+                p2[i] += 1
+                if o[0] == "set":
+                    go(p2, o[1], sent, reads)
+                elif o[0] == "send":
+                    go(p2, g, sent + 1, reads)
+                elif o[0] == "recv":
+                    go(p2, g, sent - 1, reads)
+                else:
+                    r2 = [list(r) for r in reads]
+                    r2[i].append(g)
+                    go(p2, g, sent, r2)
+    go([0] * len(seqs), g0, 0, [[] for _ in seqs])
+    out = set()
+    for reads, g in results:
+        out.add("(lst" + "".join(" (lst" + "".join(" (i %d)" % v for v in r) + ")" for r in reads) + " (i %d))" % g)
     return out
